@@ -11,12 +11,11 @@ open RV.Finder
 
 /-! ### what an API server that validates and defaults admits -/
 
-/-- `spec.replicas` is defaulted (apps/v1 by the API server, the Kruise kinds by Kruise's webhook); the revision
-    fields of a StatefulSet-like custom resource are strings -/
+/-- `spec.replicas` of the typed kinds is defaulted (apps/v1 by the API server, the Kruise kinds by Kruise's webhook).
+    Nothing is assumed about unstructured (custom-resource) StatefulSet-likes: any field may be absent or of any type. -/
 def admissible (c : Cluster) : Bool :=
   c.cloneSets.all (·.replicas.isSome) && c.deployments.all (·.replicas.isSome) &&
-  c.replicaSets.all (·.replicas.isSome) && c.nativeSts.all (·.replicas.isSome) && c.kruiseSts.all (·.replicas.isSome) &&
-  c.unstructured.all (fun u => u.updateRevision != .wrongType && u.currentRevision != .wrongType)
+  c.replicaSets.all (·.replicas.isSome) && c.nativeSts.all (·.replicas.isSome) && c.kruiseSts.all (·.replicas.isSome)
 
 /-- the validating webhook of Rollout rejects a strategy with neither `canary` nor `blueGreen` -/
 def strategyOK (s : Strategy) : Bool := s.blueGreen || s.canary.isSome
